@@ -1,6 +1,7 @@
 import Pyxv.Proofs.BackendsLemmas
 import Pyxv.Proofs.BackendsCsv
 import Pyxv.Proofs.BackendsMd
+import Pyxv.Proofs.BackendsExcel
 /-!
 # C12 — container format and delivery channel do not matter
 
@@ -102,6 +103,58 @@ theorem getHeaders_spec (row hs : List (Option Str)) (hr : runsAll 20 0 row = tr
 example : (getHeaders [some "type".toList, none, some " na  me ".toList, none, none]).toOption =
     some [some "type".toList, none, some "na me".toList] := by decide
 example : runsAll 20 0 [some "type".toList, none, some " na  me ".toList, none, none] = true := by decide
+
+/-- **getHeaders never truncates.** If every run of empty header cells *followed by a header* has at
+most 20 cells (a trailing run may be arbitrarily long) and no duplicate is reported, then the result
+is the cleaned first row without its trailing empties, possibly followed by one `None` (the one the
+loop appends before it stops inside a trailing run longer than 20); in both cases it is a prefix of
+the cleaned row and contains every header of it, in order and position. -/
+theorem getHeaders_never_truncates (row hs : List (Option Str)) (hr : runsIntH 20 0 row = true)
+    (h : getHeaders row = .ok hs) :
+    (hs = stripTrailing Option.isNone (row.map cleanOpt) ∨
+      hs = stripTrailing Option.isNone (row.map cleanOpt) ++ [none]) ∧
+    hs <+: row.map cleanOpt ∧ hs.filterMap id = (row.map cleanOpt).filterMap id := by
+  unfold getHeaders at h
+  have h20 : Gen.maxEmptyHeaderRun = 20 := by decide
+  rw [h20] at h
+  split at h
+  · rename_i acc adj hl
+    injection h with h
+    subst h
+    have := headersLoop_interior 20 row 0 [] (acc, adj) (by omega) rfl hr (by simpa using hl)
+    simp only [List.replicate_zero, List.append_nil, List.nil_append] at this
+    obtain ⟨t, ht, hall⟩ := stripTrailing_decomp Option.isNone (row.map cleanOpt)
+    have hnone : ∀ x ∈ t, x = none := fun x hx => by
+      have h1 := hall x hx
+      cases x with
+      | none => rfl
+      | some v => exact absurd h1 (by simp)
+    rcases this with h1 | ⟨h1, t', ht', hall'⟩
+    · refine ⟨.inl h1, ?_, ?_⟩
+      · rw [h1]; exact ⟨t, ht.symm⟩
+      · rw [h1]
+        conv => rhs; rw [ht]
+        rw [List.filterMap_append, filterMap_id_all_none t hnone, List.append_nil]
+    · refine ⟨.inr h1, ?_, ?_⟩
+      · rw [h1]; exact ⟨t', by rw [List.append_assoc]; exact ht'.symm⟩
+      · rw [h1]
+        conv => rhs; rw [ht']
+        rw [List.filterMap_append, List.filterMap_append]
+        have : (none :: t').filterMap id = [] := filterMap_id_all_none _ (by
+          intro x hx
+          rcases List.mem_cons.1 hx with hx | hx
+          · exact hx
+          · exact hall' x hx)
+        rw [this]; rfl
+  · cases h
+
+/-- non-vacuity with a small limit: the loop (limit 2) stops inside the trailing run and leaves one `None` -/
+example : (headersLoop 2 0 [] [some "a".toList, none, none, some "b".toList, none, none, none, none, none]).toOption
+    = some ([some "a".toList, none, none, some "b".toList, none, none, none], 2) := by decide
+example : runsIntH 20 0 ([some "a".toList] ++ List.replicate 20 none ++ [some "b".toList] ++ List.replicate 30 none) = true := by
+  decide
+example : (getHeaders ([some "a".toList] ++ List.replicate 20 none ++ [some "b".toList] ++ List.replicate 30 none)).toOption
+    = some ([some "a".toList] ++ List.replicate 20 none ++ [some "b".toList, none]) := by decide +kernel
 
 /-! ## typed cells are read as canonical text -/
 
@@ -336,5 +389,112 @@ example : Md.MdOK exBoth = true ∧ Csv.CsvOK exBoth = true ∧ isMarkdownTable 
 
 example : (getXlsform (fun _ _ => .error .readError) (.path "f".toList ".md".toList) (renderMd exBoth) (some .md)).toOption
     = some (toBook exBoth, some "f".toList) := by decide +kernel
+
+
+/-! ## Markdown lines are split on U+000A only -/
+
+/-- **md line splitting.** `mdstr.split("\n")` cuts the rendered workbook exactly at the row
+boundaries as soon as no cell contains U+000A — whatever other line-separator characters
+(U+2028, U+2029, U+0085, VT, FF, CR) the cells contain. -/
+theorem md_lines_split_only_on_LF (wb : Workbook) (hne : wb ≠ []) (h : Md.NoNl wb) :
+    splitOnChar '\n' (renderMd wb) = mdLines wb := Md.splitOnChar_renderMd wb hne h
+
+/-- a cell whose first and last characters are not whitespace and which contains no U+000A is inside
+the guard of `md_roundtrip` and is read back exactly — its interior is arbitrary. -/
+theorem md_cell_interior_arbitrary (a b : Char) (mid : Str) (ha : pyIsSpace a = false)
+    (hb : pyIsSpace b = false) (hn : '\n' ∉ a :: (mid ++ [b])) :
+    Md.cellOK (a :: (mid ++ [b])) = true ∧ mdStrp (mdCellPad (a :: (mid ++ [b]))) = some (a :: (mid ++ [b])) := by
+  have hs : strip (a :: (mid ++ [b])) = a :: (mid ++ [b]) := by
+    unfold strip
+    rw [Md.lstrip_cons_of_not a _ ha]
+    have : a :: (mid ++ [b]) = (a :: mid) ++ [b] := rfl
+    rw [this, Md.rstrip_snoc_of_not _ b hb]
+  exact ⟨(Md.cellOK_iff _).2 ⟨hs, hn⟩, Md.mdStrp_pad _ hs (by simp)⟩
+
+/-- the separators of `str.splitlines` other than LF / CR-LF -/
+def exoticSeparators : Str := [Char.ofNat 0x2028, Char.ofNat 0x2029, Char.ofNat 0x85, Char.ofNat 0x0B, Char.ofNat 0x0C]
+
+/-- non-vacuity: a label holding all of U+2028, U+2029, U+0085, VT, FF survives the md round trip -/
+def exExotic : Workbook :=
+  [⟨"survey".toList, ["type".toList, "name".toList, "label".toList],
+     [["text".toList, "a".toList, 'x' :: (exoticSeparators ++ ['y'])],
+      ["note".toList, "n".toList, ('p' :: Char.ofNat 0x2028 :: "q r".toList)]]⟩]
+
+example : Md.MdOK exExotic = true ∧ isMarkdownTable (renderMd exExotic) = true := by decide
+example : mdToDict (renderMd exExotic) = .ok (toBook exExotic) := md_roundtrip exExotic (by decide) (by decide)
+example : (splitOnChar '\n' (renderMd exExotic)).length = 4 := by
+  rw [md_lines_split_only_on_LF exExotic (by decide) (by decide)]; rfl
+
+/-! ## spreadsheets after decoding, and all containers together -/
+
+/-- **excel_roundtrip.** Whatever typed grids the (third-party) decoder delivers — integers, floats,
+booleans, padded or nbsp-padded text, missing cells, ragged or over-long rows — as long as they
+*show* the workbook (`Excel.ShowsAll`: header row as text cells, every data cell read by `cellText`
+as the workbook's text) and the workbook is inside `Excel.ExcelOK`, `xlsx_to_dict` / `xls_to_dict`
+return the dict container; blank rows inside the data are kept. -/
+theorem excel_roundtrip (wb : Workbook) (gs : List Grid) (hs : Excel.ShowsAll wb gs)
+    (h : Excel.ExcelOK wb = true) : excelToDict (Excel.sheetsOf wb gs) = .ok (toBook wb) :=
+  Excel.excel_roundtrip wb gs hs h
+
+/-- text cells that show a text: stripped, without U+00A0 (an interior U+00A0 is shown by *no* cell: F29) -/
+theorem text_cell_shows (t : Str) (hs : strip t = t) (hn : nbsp ∉ t) : cellText (.text t) = Md.toOpt t := by
+  by_cases ht : t = []
+  · subst ht; rfl
+  · have hsp : allSpace t = false := by
+      cases hh : allSpace t with
+      | false => rfl
+      | true =>
+        exfalso
+        have := cellText_blank t hh
+        obtain ⟨⟨a, r, hx, ha⟩, _⟩ := Md.edges_of_strip t hs ht
+        subst hx
+        simp [allSpace, ha] at hh
+    rw [(cellText_trim_nbsp t hsp).1, hs]
+    have : replaceNbsp t = t := by
+      unfold replaceNbsp
+      conv => rhs; rw [← List.map_id t]
+      apply List.map_congr_left
+      intro c hc
+      have : c ≠ nbsp := fun e => hn (e ▸ hc)
+      simp [this]
+    simp [this, Md.toOpt, ht]
+
+/-- **container_independent.** One workbook inside the three guards: its Markdown rendering, its CSV
+rendering and every decoded spreadsheet showing it are all read as the same structure — the dict
+container `toBook wb` (for md/csv/xls/xlsx after `definition_to_dict`'s key filter, which keeps it whole). -/
+theorem container_independent (wb : Workbook) (gs : List Grid)
+    (hmd : Md.MdOK wb = true) (hm : isMarkdownTable (renderMd wb) = true)
+    (hcsv : Csv.CsvOK wb = true) (hc : isCsv (renderCsv wb) = true)
+    (hx : Excel.ExcelOK wb = true) (hs : Excel.ShowsAll wb gs) :
+    mdToDict (renderMd wb) = .ok (toBook wb) ∧ csvToDict (renderCsv wb) = .ok (toBook wb) ∧
+      excelToDict (Excel.sheetsOf wb gs) = .ok (toBook wb) ∧ toDefinition (toBook wb) = toBook wb := by
+  refine ⟨md_roundtrip wb hmd hm, csv_roundtrip wb hcsv hc, excel_roundtrip wb gs hs hx, ?_⟩
+  apply toDefinition_toBook
+  intro s hsw
+  simp only [Excel.ExcelOK, Bool.and_eq_true, List.all_eq_true] at hx
+  exact (Excel.sheetOK_unpack s (hx.1 s hsw)).sup
+
+/-- non-vacuity: typed cells (int, integral float, decimal, bool, padded and nbsp-padded text, a
+missing cell, an over-long row) showing `exTyped`, which is inside all three guards -/
+def exTyped : Workbook :=
+  [⟨"survey".toList, ["type".toList, "name".toList, "label".toList, "default".toList],
+     [["integer".toList, "a".toList, "42".toList, "7".toList],
+      ["decimal".toList, "b".toList, "TRUE".toList, "1.5".toList, "beyond".toList],
+      ["text".toList, "c".toList, "x y".toList]]⟩]
+
+def exTypedGrid : Grid :=
+  [[.text "type".toList, .text "name".toList, .text "label".toList, .text "default".toList],
+   [.text " integer ".toList, .text "a".toList, .int 42, .float (some 7) "7.0".toList],
+   [.text "decimal".toList, .text [nbsp, 'b', nbsp], .bool true, .float none "1.5".toList, .text "beyond".toList],
+   [.text "text".toList, .text "c".toList, .text " x y".toList]]
+
+theorem exTyped_shows : Excel.ShowsAll exTyped [exTypedGrid] :=
+  .cons ⟨_, rfl, by decide⟩ .nil
+
+example : Md.MdOK exTyped = true ∧ Csv.CsvOK exTyped = true ∧ Excel.ExcelOK exTyped = true ∧
+    isMarkdownTable (renderMd exTyped) = true ∧ isCsv (renderCsv exTyped) = true := by decide
+
+example : excelToDict (Excel.sheetsOf exTyped [exTypedGrid]) = .ok (toBook exTyped) :=
+  excel_roundtrip exTyped [exTypedGrid] exTyped_shows (by decide)
 
 end Pyxv.Backends
